@@ -144,7 +144,7 @@ func cmdVerify(args []string) int {
 			t1 := time.Now()
 			name := rep.Name
 			if rep.Path != "" {
-				name += "@" + strings.TrimPrefix(rep.Path, ".")
+				name += "@" + rep.Path
 			}
 			if rep.Err != "" {
 				fmt.Printf("%-50s OUT OF REACH: %s\n", name, rep.Err)
